@@ -44,11 +44,13 @@ def ZState.init (z : K) (t : ZType) : ZState K :=
 def ZState.setZ (s : ZState K) (z : K) : ZState K :=
   { s with z := z, fluxScale := match s.zType with | .wavelengthOnly => none | .conserveFlux => some (1 / (1 + z)) }
 
-/-- `sp.z_type = what` for a valid `what`: only stores the flag -/
-def ZState.setZType (s : ZState K) (t : ZType) : ZState K := { s with zType := t }
+/-- `sp.z_type = what` for a valid `what`: stores the flag and re-assigns `z`, which rebuilds
+the flux-scale model -/
+def ZState.setZType (s : ZState K) (t : ZType) : ZState K :=
+  ({ s with zType := t } : ZState K).setZ s.z
 
-/-- the `model` property of a `SourceSpectrum`: `TypeError` when `conserve_flux` was selected
-after the last assignment of `z` (the flux-scale model is `None` and cannot be composed) -/
+/-- the `model` property of a `SourceSpectrum` (`TypeError` if the flux-scale model were `None`
+under `conserve_flux`; `C05.model_never_typeError` shows no history reaches that state) -/
 def ZState.model (s : ZState K) (m : Tree K) : Except Err (Tree K) :=
   if s.z = 0 then .ok m
   else match s.zType with
